@@ -336,6 +336,10 @@ def work(shard):
             sc = J.SCache(game["players"], game["transition_list"], game["final_states"])
             acc["structures"] += 1
             rewards = game["rewards"]
+            if not (sc.stopping and all(rewards[s] == 0 for s in sc.absorbing)):
+                # non-stopping member: a positive reward on a cycle makes total reward legitimately infinite and
+                # solve() rightly never returns; no property covers that, so such members are run with zero rewards
+                rewards = [0] * sc.n
             f, k = analyse_game(prop, sc, rewards, acc, ())
             if f or k:
                 record(prop, sc, rewards, f, k, acc, shard["family"])
